@@ -151,7 +151,7 @@ Definition out_eqb (o : outcome) (e : eout) : bool :=
   | Ok v, EOk w => value_eqb v w
   | Raise (XSyntaxError _ _), ESyntaxError => true
   | Raise XStopIteration, EExc n => String.eqb n "StopIteration"
-  | Raise (XNameError _), EExc n => String.eqb n "NameError" || String.eqb n "TypeError" || String.eqb n "AttributeError"
+  | Raise (XNameError _), EExc n => String.eqb n "NameError" || String.eqb n "UnboundLocalError" || String.eqb n "TypeError" || String.eqb n "AttributeError"
   | Raise (XAttributeError _), EExc n => String.eqb n "AttributeError"
   | Raise XAssertion, EExc n => String.eqb n "AssertionError"
   | Raise (XUnbound _), EExc n => String.eqb n "UnboundLocalError"
@@ -170,7 +170,26 @@ Definition rcase_ok (c : rcase) : bool :=
   | inl m => forallb (fun tr => forallb (run_ok m tbl (fst tr) ci) (snd tr)) inputs
   | inr _ => false
   end.
+Fixpoint idx_filter {A} (f : A -> bool) (i : nat) (l : list A) : list nat :=
+  match l with [] => [] | x :: l' => if f x then idx_filter f (S i) l' else i :: idx_filter f (S i) l' end.
+Definition rcase_diag (c : rcase) : list (nat * list nat) :=
+  let '(g, fresh, tbl, ci, inputs) := c in
+  match run_gen g fresh with
+  | inl m => filter (fun p => negb (match snd p with [] => true | _ => false end))
+               (combine (seq 0 (List.length inputs)) (map (fun tr => idx_filter (run_ok m tbl (fst tr) ci) 0 (snd tr)) inputs))
+  | inr _ => [(999, [])]
+  end.
 """
+
+
+def diagnose(pid: str, case: str, tokens) -> str:
+    """which (input index, run index) of a failing case disagree"""
+    d = common.GEN / pid
+    f = d / "krun_diag.v"
+    f.write_text(prelude(tokens) + f"Definition C : rcase := {case}.\nEval vm_compute in (\"DIAG\", rcase_diag C).\n")
+    rc, out = common.coqc(f, timeout=600)
+    i = out.find('("DIAG"')
+    return " ".join(out[i:].split())[:600] if i >= 0 else out[-600:]
 
 
 def prelude(tokens: list[str]) -> str:
@@ -211,3 +230,55 @@ def case_term(grammar_text: str, result: dict, call_invalid: bool) -> str | None
 
 CASE_T = "rcase"
 OK = "rcase_ok"
+
+
+# ---------------------------------------------------------------- shared driver for the run-based checks
+def krun(chk, pid: str, grammar_texts: list[str], inputs_for, configs=("q1",), call_invalid=False, shard=8,
+         per_input_limit=0.5, want_cases=True):
+    """Runs the real parsers (traced) and, if want_cases, the Coq model on the same cases.
+    Returns [(grammar text, runner result)] for the property-specific oracle of the caller."""
+    import tables
+    from checks.c13 import tokens_set
+    d = common.GEN / pid
+    d.mkdir(parents=True, exist_ok=True)
+    try:
+        (d / "Tables.v").write_text(tables.tables_v())
+    except tables.ExtractError as e:
+        chk.oblige("table extraction", False, str(e))
+        return []
+    rc, out = common.coqc(d / "Tables.v")
+    chk.oblige(f"extracted tables compile (coq/gen/{pid}/Tables.v)", rc == 0, out[-2000:])
+    jobs = [{"grammar": t, "inputs": inputs_for(t), "configs": list(configs), "call_invalid": call_invalid,
+             "limit": per_input_limit} for t in grammar_texts]
+    results = run_traced(jobs)
+    cases, descs, pairs = [], [], []
+    for t, rj in zip(grammar_texts, results):
+        if "results" not in rj:
+            chk.bump("not runnable: " + (rj.get("build_error") or rj.get("runner_error") or "?")[:40])
+            continue
+        pairs.append((t, rj))
+        for one in rj["results"]:
+            for cfg, x in one["runs"].items():
+                chk.count()
+                chk.bump("run:" + x["kind"])
+        if want_cases:
+            try:
+                c = case_term(t, rj, call_invalid)
+            except (g2c.Untranslatable, ValueError, SyntaxError):
+                chk.bump("untranslatable")
+                continue
+            if c:
+                cases.append(c)
+                descs.append(t)
+    if want_cases and rc == 0:
+        failing = common.run_cases(chk, "krun", prelude(tokens_set()), CASE_T, cases, OK, shard=shard, timeout=1200)
+        if failing is not None:
+            detail = ""
+            if failing:
+                detail = json.dumps([{"grammar": descs[i], "disagreeing (input, run) indices": diagnose(pid, cases[i], tokens_set())}
+                                     for i in failing[:2]])[:4000]
+            chk.oblige(f"correspondence K-run: Runtime/Exec.v over the generator model's IR agrees with the real generated "
+                       f"parsers on {len(cases)} grammars x inputs x configurations {list(configs)} (outcome, value, final "
+                       "position, tokens fetched, error-mode flag and the whole per-invocation event trace)",
+                       not failing, detail)
+    return pairs
